@@ -4,7 +4,7 @@ TLC enumerates (entry point x mutation operator x position class); the Go driver
 valid instances and runs it on the REAL entry point under recover() + deadline + state digest; the recorded call/reply traces
 are validated by TLC against TraceRobust.tla (a lost reply = panic/hang violates Totality, reject with changed digest violates
 RejectUnchanged)."""
-import json, os, time
+import json, os, re, resource, shutil, subprocess, time
 from concurrent.futures import ThreadPoolExecutor
 from .. import vlib
 from ..vlib import Report, Inconclusive
@@ -79,21 +79,150 @@ def _shard(cases, n):
     return [s[1] for s in shards if s[1]]
 
 
+# ------------------------------------------------------------------ a driver process that may be killed by what it tests
+
+_REPO_PREFIX = "github.com/nuts-foundation/nuts-node/"
+MEM_LIMIT_MB = 6144          # the driver's own watchdog (Go heap + stacks)
+AS_LIMIT = 64 << 30          # address space limit of the driver process: an absurd allocation fails at once
+RSS_LIMIT = 10 << 30         # watchdog of last resort on the resident set of the driver process
+
+
+def _site_of_fatal(text):
+    """Top repository frame of the goroutine that was running when the Go runtime gave up (fatal error / unrecovered panic)."""
+    m = re.search(r"^goroutine \d+ \[running[^\]]*\]:\n((?:.+\n)+)", text, re.M)
+    block = m.group(1) if m else text
+    other = None
+    for line in block.splitlines():
+        if line.startswith(("\t", "goroutine ", "created by")) or not line.strip():
+            continue
+        fn = re.sub(r"\[[^\]]*\]", "", line[:line.rfind("(")] if "(" in line else line)
+        if fn.startswith(("runtime.", "runtime/", "panic(", "verifharness/")) or re.search(r"\.Verif[A-Z]", fn):
+            continue
+        if fn.startswith(_REPO_PREFIX):
+            return fn[len(_REPO_PREFIX):]
+        other = other or fn
+    return other or "unknown"
+
+
+def _run_once(binary, inp, timeout):
+    """Runs one driver process. Returns (results written, status) where status is None when the process ended normally, else
+    dict(how=..., cur=<call in flight or None>, site=..., tail=...)."""
+    work = vlib.scratch("drv")
+    try:
+        ip, op = os.path.join(work, "in.json"), os.path.join(work, "out.ndjson")
+        with open(ip, "w") as fh:
+            json.dump(dict(inp, mem_limit_mb=MEM_LIMIT_MB), fh)
+        e = vlib.go_env()
+        e.update({"VERIF_IN": ip, "VERIF_OUT": op, "TMPDIR": work})
+        logp = os.path.join(work, "log.txt")
+
+        def limits():
+            try:
+                resource.setrlimit(resource.RLIMIT_AS, (AS_LIMIT, AS_LIMIT))
+            except Exception:
+                pass
+        how = None
+        with open(logp, "w") as logf:
+            p = subprocess.Popen([binary, "-test.run", "^TestDriver$", "-test.timeout", "%ds" % (timeout + 60), "-test.count=1"],
+                                 cwd=work, env=e, stdout=logf, stderr=subprocess.STDOUT, preexec_fn=limits)
+            t0 = time.time()
+            while p.poll() is None:
+                time.sleep(0.25)
+                if time.time() - t0 > timeout:
+                    p.kill()
+                    how = "no result within %d s (process killed by the check)" % timeout
+                    break
+                try:
+                    rss = int(open("/proc/%d/statm" % p.pid).read().split()[1]) * os.sysconf("SC_PAGE_SIZE")
+                    if rss > RSS_LIMIT:
+                        p.kill()
+                        how = "resident set of the driver grew to %d MB (process killed by the check)" % (rss >> 20)
+                        break
+                except (OSError, ValueError, IndexError):
+                    pass
+            p.wait()
+        results = []
+        if os.path.exists(op):
+            for line in open(op):
+                line = line.strip()
+                if line:
+                    try:
+                        results.append(json.loads(line))
+                    except ValueError:
+                        pass
+        if p.returncode == 0 and how is None:
+            return results, None
+        tail = open(logp, errors="replace").read()
+        cur = None
+        if os.path.exists(op + ".cur"):
+            try:
+                cur = json.load(open(op + ".cur"))
+            except ValueError:
+                cur = None
+        if how is None:
+            m = re.search(r"^(fatal error: .*|panic: .*|VERIF-MEMORY-WATCHDOG: .*|signal: .*)$", tail, re.M)
+            how = (m.group(1) if m else "driver process ended with exit code %s" % p.returncode)[:300]
+        site = (cur or {}).get("site") or _site_of_fatal(tail)
+        m = re.search(r"^((?:fatal error|panic): .*\n(?:.*\n)*?goroutine \d+ \[running[^\]]*\]:\n(?:.+\n)+)", tail, re.M)
+        return results, dict(how=how, cur=cur, site=site, tail=(m.group(1)[:5000] if m else tail[-6000:]), rc=p.returncode)
+    finally:
+        shutil.rmtree(work, ignore_errors=True)
+
+
+def _alone(binary, cur, seed, timeout=120):
+    """Re-runs ONE input alone in a fresh process. Returns a finding dict (kind panic/hang/process-killed/...) or None when
+    the input is handled normally (the death did not reproduce)."""
+    rp = dict(ep=cur["ep"], input_b64=cur["input_b64"], ctx=cur.get("ctx"), desc=cur.get("desc"))
+    res, st = _run_once(binary, dict(seed=seed, level=0, scripts=[], replay=[rp], deadline_ms=5000), timeout)
+    base = dict(entry=cur["ep"], desc=cur.get("desc", ""), input_b64=cur["input_b64"], ctx=cur.get("ctx"), call_id=cur.get("call_id", "alone"))
+    if st is not None:
+        if st["cur"] is None and not res:
+            return dict(base, kind="harness", site="driver did not start", value=st["how"], stack=st["tail"][-3000:])
+        kind = "hang" if st["how"].startswith("no result within") else "process-killed"
+        return dict(base, kind=kind, site=st["site"], value=st["how"], stack=((st["cur"] or {}).get("stack") or st["tail"])[-5000:])
+    for r in res:
+        for f in r["findings"]:
+            return dict(base, kind=f["kind"], site=f["site"], value=f.get("value"), stack=f.get("stack"))
+    return None
+
+
 def _run_cases(binary, cases, seed, level, random_n, max_per_case, shards=8, timeout=900):
+    """Runs the cases in parallel driver processes. A process that dies (fatal error, memory, killed) is survived: what it had
+    finished is kept, the call that was in flight is set aside (returned under deaths) and the rest is run again without it."""
     parts = _shard(cases, shards)
 
     def one(part):
-        inp = dict(seed=seed, level=level, scripts=part, random=random_n, deadline_ms=5000, max_per_case=max_per_case)
-        try:
-            return vlib.run_driver(binary, inp, timeout=timeout)
-        except Inconclusive:
-            # e.g. the in-process node lost the race for a free TCP port against another check running on this machine
-            return vlib.run_driver(binary, inp, timeout=timeout)
+        results, deaths, skip, pending = [], [], [], list(part)
+        starts_failed = 0
+        for attempt in range(12):
+            inp = dict(seed=seed, level=level, scripts=pending, random=random_n, deadline_ms=5000, max_per_case=max_per_case, skip=skip)
+            res, st = _run_once(binary, inp, timeout)
+            results += res
+            done = set(r["id"] for r in results)
+            pending = [c for c in pending if c["id"] not in done]
+            if st is None:
+                break
+            if st["cur"] is None:
+                # died outside a call (e.g. the in-process node lost the race for a free TCP port): once more, then give up
+                starts_failed += 1
+                if starts_failed > 2:
+                    raise Inconclusive("driver dies outside any call: %s\n%s" % (st["how"], st["tail"][-2500:]))
+                continue
+            deaths.append(st)
+            skip.append(st["cur"]["call_id"])
+            if not pending:
+                break
+        else:
+            raise Inconclusive("driver process died %d times in one shard" % len(deaths))
+        if pending:
+            raise Inconclusive("driver left %d cases undone" % len(pending))
+        return results, deaths
     with ThreadPoolExecutor(max_workers=len(parts)) as ex:
         outs = list(ex.map(one, parts))
-    res = [r for o in outs for r in o]
+    res = [r for o, _ in outs for r in o]
     res.sort(key=lambda r: r["id"])
-    return res
+    deaths = [d for _, ds in outs for d in ds]
+    return res, deaths
 
 
 def _split_trace(tr):
@@ -122,7 +251,18 @@ def run(prop, tier, seed, replay=None):
 
     if replay:
         obj = json.load(open(replay))
-        res = vlib.run_driver(binary, dict(seed=seed, level=0, scripts=[], replay=[obj["replay"]], deadline_ms=5000))
+        res, st = _run_once(binary, dict(seed=seed, level=0, scripts=[], replay=[obj["replay"]], deadline_ms=5000), 180)
+        if st is not None:
+            # the input ends the process (or the process does not come back): that IS the observation
+            rp = obj["replay"]
+            if st["cur"] is None and not res:
+                raise Inconclusive("driver did not start: %s\n%s" % (st["how"], st["tail"][-2000:]))
+            kind = "hang" if st["how"].startswith("no result within") else "process-killed"
+            f = dict(kind=kind, entry=rp["ep"], site=st["site"], value=st["how"], stack=((st["cur"] or {}).get("stack") or st["tail"])[-5000:],
+                     input_b64=rp["input_b64"], ctx=rp.get("ctx"), desc=rp.get("desc"))
+            print("  %s at %s: %s" % (kind, f["site"], f["value"]))
+            print("  " + "\n  ".join(f["stack"].splitlines()[-40:]))
+            rep.violation(_sig(f), _replay_obj(f))
         for r in res:
             print(json.dumps(dict(id=r["id"], ep=r["ep"], outcome=(r.get("sample") or {}).get("desc"), error=r.get("error")))[:1500])
             if r.get("error"):
@@ -157,7 +297,7 @@ def run(prop, tier, seed, replay=None):
     # 3. the real code
     level = 0 if quick else 1
     random_n = 150 if quick else 16000
-    results = _run_cases(binary, cases, seed, level, random_n, 0 if not quick else 400, shards=10, timeout=240 if quick else 840)
+    results, deaths = _run_cases(binary, cases, seed, level, random_n, 0 if not quick else 400, shards=10, timeout=240 if quick else 840)
     if len(results) != len(cases):
         raise Inconclusive("driver returned %d results for %d cases" % (len(results), len(cases)))
 
@@ -176,14 +316,27 @@ def run(prop, tier, seed, replay=None):
             n_findings += 1
             k = json.dumps(_sig(f), sort_keys=True)
             by_sig.setdefault(k, []).append((r, f))
+    # an input that ended the driver process is re-run ALONE in a fresh process: reproduces => violation (process-killed, or the
+    # panic / hang it turns out to be); does not reproduce => the death stays unexplained (inconclusive)
+    killed = []
+    for st in deaths:
+        f = _alone(binary, st["cur"], seed)
+        if f is None or f["kind"] == "harness":
+            rep.inconclusive.append("a driver process died (%s) while running %s [%s] but the input alone is handled normally"
+                                    % (st["how"], st["cur"]["ep"], st["cur"].get("desc", "")[:120]))
+            continue
+        n_findings += 1
+        killed.append(f)
+        r0 = dict(trace=[dict(ev="call", id=f["call_id"], ep=st["cur"]["ep"], op=st["cur"]["op"], pos=st["cur"]["pos"], pre="-")])
+        by_sig.setdefault(json.dumps(_sig(f), sort_keys=True), []).append((r0, f))
     # a missed deadline is confirmed by re-running the input alone (the machine may have been busy): still no reply => hang
     slow = 0
     for k in sorted(by_sig):
         r, f = by_sig[k][0]
-        if f["kind"] != "hang":
+        if f["kind"] != "hang" or any(f is g for g in killed):
             continue
-        again = vlib.run_driver(binary, dict(seed=seed, level=level, scripts=[], replay=[_replay_obj(f)["replay"]], deadline_ms=5000), timeout=120)
-        if not any(g["kind"] == "hang" for a in again for g in a["findings"]):
+        again = _alone(binary, dict(ep=f["entry"], input_b64=f["input_b64"], ctx=f.get("ctx"), desc=f.get("desc")), seed)
+        if again is None or again["kind"] not in ("hang", "process-killed"):
             slow += len(by_sig[k])
             rep.notes.append("NOTE: %s missed the 5 s deadline under load but replied when re-run alone (%s); not counted as a hang"
                              % (f["entry"], f["desc"][:120]))
@@ -212,7 +365,8 @@ def run(prop, tier, seed, replay=None):
     chunks = [c for c in chunks if c]
     pool = ThreadPoolExecutor(max_workers=8)
     futs = [pool.submit(vlib.validate_traces, "TraceRobust", "Robust.trace.cfg", c, 900, 4000) for c in chunks]
-    expected = {"panic": "invariant:Totality", "hang": "invariant:Totality", "state-changed": "invariant:RejectUnchanged"}
+    expected = {"panic": "invariant:Totality", "hang": "invariant:Totality", "process-killed": "invariant:Totality",
+                "state-changed": "invariant:RejectUnchanged"}
     reps = []
     for k in sorted(by_sig):
         r, f = by_sig[k][0]
@@ -284,15 +438,18 @@ def run(prop, tier, seed, replay=None):
                traces_validated_against_impl=acc + len(rej) + len(reps), traces_accepted=acc, traces_rejected=len(rej) + confirmed,
                slowest_call_us=max([r.get("max_us", 0) for r in results] or [0]),
                models=models, states=sum(m.get("states", 0) for m in models), transitions=sum(m.get("transitions", 0) for m in models),
-               exhaustive=False, harness_errors=len(errors), phase_wall_s=phases, deadline_misses_not_confirmed=slow,
+               exhaustive=False, harness_errors=len(errors), phase_wall_s=phases, deadline_misses_not_confirmed=slow, driver_processes_killed_by_an_input=len(deaths),
+               inputs_that_kill_the_process_reproduced_alone=len(killed),
                calls_replied_after_deadline_within_grace=sum(r.get("slow_calls", 0) for r in results))
     vlib.write_evidence(prop, tier, seed, "exploration", cov, time.time() - t0, len(rep.violations),
                         ["the universal quantifier over all byte strings is SAMPLED through the enumerated structure-aware mutation classes "
                          "(type confusion, missing/null member, extreme numbers, truncation, duplicate member, empty, deep nesting, "
                          "hand-written unusual combinations, seeded random stacks); no claim outside those classes",
                          "termination is a per-call deadline (5 s, plus a 10 s grace period on a busy machine; a reported hang is re-run alone), not a proof",
-                         "a panic in a goroutine spawned by the code under test would kill the driver (reported as inconclusive, exit 2)",
-                         "resource exhaustion (memory) is not an oracle: a decompression bomb that terminates within the deadline counts as handled",
+                         "an input that ends the driver process (fatal error such as out of memory, unrecovered panic in a spawned goroutine, "
+                         "memory watchdog at 6 GB Go heap / 10 GB RSS / 64 GB address space) is re-run alone and reported as process-killed when "
+                         "it reproduces; a death that does not reproduce is inconclusive",
+                         "memory is an oracle only through the limits above: an input that makes the node hold less than that counts as handled",
                          "reject => unchanged is checked on a state digest where a store exists: DAG content modulo well-formed transactions "
                          "(v2 handlers), all rows of the discovery / credential tables, all rows of status_list_credential",
                          "LD-proof presentations/credentials cannot be re-signed by the harness after mutation: for those the code behind the "
